@@ -206,9 +206,6 @@ Proof. apply disc_skip; reflexivity. Qed.
 Lemma disc_lbrace rs out' : disc rs (c_lbrace :: out') = disc ((KBrace, true) :: rs) out'.
 Proof. rewrite disc_cons. reflexivity. Qed.
 
-Definition starts_nl (l : list N) : bool :=
-  match l with x :: _ => x =? c_nl | [] => false end.
-
 Lemma disc_lparen rs out' :
   disc rs (c_lparen :: out') = disc ((KParen, starts_nl out') :: rs) out'.
 Proof. rewrite disc_cons. reflexivity. Qed.
@@ -640,3 +637,370 @@ Section WithOracle.
     apply discipline_main; auto. apply rel_nil.
   Qed.
 End WithOracle.
+
+(** * the indent invariant *)
+
+Lemma nested_stack_after : forall s bs,
+  nested_from bs s = true <-> stack_after bs s = Some [].
+Proof.
+  induction s as [|c s IH]; intro bs; cbn [nested_from stack_after].
+  - destruct bs; split; intro H; try reflexivity; discriminate H.
+  - destruct (opener c) as [k|]; [apply IH|].
+    destruct (closer c) as [k|]; [|apply IH].
+    destruct bs as [|k' bs0]; [split; discriminate|].
+    destruct (bkind_eqb k k'); cbn [andb]; [apply IH|split; discriminate].
+Qed.
+
+Section Invariant.
+  Variable O : Type.
+  Variable decide : O -> N -> N -> list N -> bool * O.
+
+  (** one step keeps the relation; [rs1] is the reader stack after [ch] *)
+  Lemma step_rel st o ch rest rs :
+    Rel st rs -> nested_from (map fst rs) (ch :: rest) = true ->
+    exists rs1,
+      Rel (snd (fst (step O decide st o ch rest))) rs1 /\
+      nested_from (map fst rs1) rest = true /\
+      (forall l, stack_after (map fst rs) (ch :: l) = stack_after (map fst rs1) l).
+  Proof.
+    intros Hrel Hn.
+    destruct (classify ch) as [->|[->|[->|[->|[->|[->|[->|Hoth]]]]]]].
+    - rewrite step_lbrace. cbn [fst snd].
+      rewrite (nested_open _ KBrace) in Hn by reflexivity.
+      exists ((KBrace, true) :: rs). split; [apply rel_brace; exact Hrel|].
+      split; [exact Hn|]. intro l. apply stack_after_open. reflexivity.
+    - apply nested_close with (k := KBrace) in Hn as (bs0 & Hbs & Hn); [|reflexivity..].
+      apply map_fst_cons in Hbs as (b & rs0 & -> & <-).
+      apply rel_inv_brace in Hrel as (-> & Hrel).
+      rewrite step_rbrace. cbn [fst snd].
+      exists rs0. split; [exact Hrel|]. split; [exact Hn|].
+      intro l. cbn [map fst]. apply stack_after_close; reflexivity.
+    - rewrite nested_other in Hn by reflexivity.
+      exists rs. split; [|split; [exact Hn|intro l; apply stack_after_other; reflexivity]].
+      rewrite step_comma. destruct (tuples st) as [|[] ?]; exact Hrel.
+    - rewrite (nested_open _ KParen) in Hn by reflexivity.
+      rewrite step_lparen.
+      destruct (decide o c_lparen c_rparen rest) as [[|] o']; cbn [fst snd].
+      + exists ((KParen, false) :: rs). split; [apply rel_paren_small; exact Hrel|].
+        split; [exact Hn|]. intro l. apply stack_after_open. reflexivity.
+      + exists ((KParen, true) :: rs). split; [apply rel_paren_big; exact Hrel|].
+        split; [exact Hn|]. intro l. apply stack_after_open. reflexivity.
+    - apply nested_close with (k := KParen) in Hn as (bs0 & Hbs & Hn); [|reflexivity..].
+      apply map_fst_cons in Hbs as (b & rs0 & -> & <-).
+      rewrite step_rparen.
+      exists rs0.
+      apply rel_inv_paren in Hrel as [(-> & t0 & Et & Hrel)|(-> & t0 & Et & Hrel)];
+        rewrite Et; cbn [fst snd]; (split; [exact Hrel|]); (split; [exact Hn|]);
+        intro l; cbn [map fst]; apply stack_after_close; reflexivity.
+    - rewrite (nested_open _ KAngle) in Hn by reflexivity.
+      rewrite step_langle.
+      destruct (decide o c_langle c_rangle rest) as [[|] o']; cbn [fst snd].
+      + exists ((KAngle, false) :: rs). split; [apply rel_angle_small; exact Hrel|].
+        split; [exact Hn|]. intro l. apply stack_after_open. reflexivity.
+      + exists ((KAngle, true) :: rs). split; [apply rel_angle_big; exact Hrel|].
+        split; [exact Hn|]. intro l. apply stack_after_open. reflexivity.
+    - apply nested_close with (k := KAngle) in Hn as (bs0 & Hbs & Hn); [|reflexivity..].
+      apply map_fst_cons in Hbs as (b & rs0 & -> & <-).
+      rewrite step_rangle.
+      exists rs0.
+      apply rel_inv_angle in Hrel as [(-> & a0 & Ea & Hrel)|(-> & a0 & Ea & Hrel)];
+        rewrite Ea; cbn [fst snd]; (split; [exact Hrel|]); (split; [exact Hn|]);
+        intro l; cbn [map fst]; apply stack_after_close; reflexivity.
+    - rewrite nested_other in Hn by auto using other_opener, other_closer.
+      rewrite (step_other _ _ _ _ _ _ Hoth). cbn [fst snd].
+      exists rs. split; [exact Hrel|]. split; [exact Hn|].
+      intro l. apply stack_after_other; auto using other_opener, other_closer.
+  Qed.
+
+  Lemma run_rel : forall n s st o rs,
+    Rel st rs -> nested_from (map fst rs) s = true ->
+    exists rs', stack_after (map fst rs) (firstn n s) = Some (map fst rs') /\
+                Rel (run_n O decide n st o s) rs'.
+  Proof.
+    induction n as [|n IH]; intros s st o rs Hrel Hn.
+    - exists rs. split; [reflexivity|exact Hrel].
+    - destruct s as [|ch rest]; [exists rs; split; [reflexivity|exact Hrel]|].
+      destruct (step_rel st o ch rest rs Hrel Hn) as (rs1 & Hrel1 & Hn1 & Hst).
+      cbn [run_n firstn]. rewrite Hst.
+      destruct (step O decide st o ch rest) as [[chunk st1] o1]. cbn [fst snd] in Hrel1.
+      apply IH; assumption.
+  Qed.
+
+  Lemma final_rel : forall s st o rs,
+    Rel st rs -> nested_from (map fst rs) s = true ->
+    Rel (final_state O decide st o s) [].
+  Proof.
+    induction s as [|ch rest IH]; intros st o rs Hrel Hn.
+    - destruct rs; [exact Hrel|discriminate Hn].
+    - destruct (step_rel st o ch rest rs Hrel Hn) as (rs1 & Hrel1 & Hn1 & _).
+      cbn [final_state].
+      destruct (step O decide st o ch rest) as [[chunk st1] o1]. cbn [fst snd] in Hrel1.
+      apply IH with rs1; assumption.
+  Qed.
+
+  Theorem indent_invariant o input :
+    nestedb input = true ->
+    (forall n : nat, exists bs,
+        stack_after [] (firstn n input) = Some bs /\
+        let st := run_n O decide n init_fstate o input in
+        length (tuples st) = count_kind KParen bs /\
+        length (angles st) = count_kind KAngle bs /\
+        indent st = Z.of_nat (count_kind KBrace bs + count_big (tuples st) + count_big (angles st)) /\
+        (0 <= indent st)%Z) /\
+    (let st := final_state O decide init_fstate o input in
+     indent st = 0%Z /\ tuples st = [] /\ angles st = []).
+  Proof.
+    intro Hn. split.
+    - intro n.
+      destruct (run_rel n input init_fstate o [] rel_nil Hn) as (rs' & Hst & Hrel).
+      exists (map fst rs'). split; [exact Hst|].
+      destruct (rel_counts _ _ _ _ Hrel) as (H1 & H2 & H3).
+      cbv zeta. repeat split; try assumption. rewrite H3. lia.
+    - pose proof (final_rel input init_fstate o [] rel_nil Hn) as Hrel.
+      apply rel_inv_nil in Hrel. exact Hrel.
+  Qed.
+End Invariant.
+
+(** * the implementation's look-ahead [decide_impl]
+
+    [scope_scan] answers "small" exactly when the text splits as
+    [pre ++ close :: post] where [pre] contains no opening brace, the balance
+    (1 + openers - closers) stays positive on every prefix of [pre] and is 1
+    after [pre]: [close] is the closer matching the opener just read, and no
+    brace occurs before it.  For [decide_impl], [pre] is shorter than 32. *)
+Section Scan.
+  Variables open close : N.
+
+  Lemma scope_scan_cons b c l :
+    scope_scan open close b (c :: l) =
+    if (c =? close) && (bal_step open close b c =? 0)%Z then true
+    else if c =? c_lbrace then false
+    else scope_scan open close (bal_step open close b c) l.
+  Proof.
+    cbn [scope_scan]. unfold bal_step.
+    destruct (c =? close); cbn [andb]; [|reflexivity].
+    destruct (Z.eqb _ _); reflexivity.
+  Qed.
+
+  Lemma bal_cons b c l : bal open close b (c :: l) = bal open close (bal_step open close b c) l.
+  Proof. reflexivity. Qed.
+
+  Lemma bal_step_ge b c : (b - 1 <= bal_step open close b c)%Z.
+  Proof. unfold bal_step. destruct (c =? open), (c =? close); lia. Qed.
+
+  Lemma scope_scan_sound : forall l b,
+    (1 <= b)%Z -> scope_scan open close b l = true ->
+    exists pre post, small_split open close b l pre post.
+  Proof.
+    induction l as [|c l IH]; intros b Hb H; [discriminate H|].
+    rewrite scope_scan_cons in H.
+    pose proof (bal_step_ge b c) as Hge.
+    destruct ((c =? close) && (bal_step open close b c =? 0)%Z) eqn:Ehit.
+    - apply andb_prop in Ehit as [Ec Ez].
+      apply N.eqb_eq in Ec. apply Z.eqb_eq in Ez. subst c.
+      exists [], l. repeat split.
+      + intros [].
+      + intros k Hk. destruct k; cbn [firstn]; exact Hb.
+      + unfold bal_step in Ez. rewrite N.eqb_refl in Ez.
+        cbn [bal fold_left]. destruct (close =? open); lia.
+    - destruct (N.eqb_spec c c_lbrace) as [Elb|Elb]; [discriminate H|].
+      assert (Hb' : (1 <= bal_step open close b c)%Z).
+      { apply andb_false_iff in Ehit as [Ec|Ez].
+        - unfold bal_step in *. rewrite Ec. destruct (c =? open); lia.
+        - apply Z.eqb_neq in Ez. unfold bal_step in *.
+          destruct (c =? open), (c =? close); lia. }
+      destruct (IH _ Hb' H) as (pre & post & -> & Hno & Hpos & Hone).
+      exists (c :: pre), post. repeat split.
+      + intros [Hin|Hin]; [congruence|contradiction].
+      + intros k Hk. destruct k as [|k]; cbn [firstn]; [exact Hb|].
+        rewrite bal_cons. apply Hpos. cbn [length] in Hk. lia.
+      + rewrite bal_cons. exact Hone.
+  Qed.
+
+  (** (for [open = close] the balance never changes and the answer is always
+      "big"; the two call sites use '(' ')' and '<' '>') *)
+  Lemma scope_scan_complete : forall pre b post,
+    close <> open ->
+    ~ In c_lbrace pre ->
+    (forall k, (k <= length pre)%nat -> (1 <= bal open close b (firstn k pre))%Z) ->
+    bal open close b pre = 1%Z ->
+    scope_scan open close b (pre ++ close :: post) = true.
+  Proof.
+    intros pre b post Hoc. revert b post.
+    induction pre as [|c pre IH]; intros b post Hno Hpos Hone; cbn [app];
+      rewrite scope_scan_cons.
+    - cbn [bal fold_left] in Hone. subst b.
+      apply N.eqb_neq in Hoc.
+      unfold bal_step. rewrite N.eqb_refl, Hoc. reflexivity.
+    - rewrite bal_cons in Hone.
+      assert (Hstep : (1 <= bal_step open close b c)%Z).
+      { specialize (Hpos 1%nat). cbn [length firstn] in Hpos.
+        rewrite bal_cons in Hpos. apply Hpos. lia. }
+      replace ((c =? close) && (bal_step open close b c =? 0)%Z) with false.
+      2:{ symmetry. apply andb_false_iff. right. apply Z.eqb_neq. lia. }
+      destruct (N.eqb_spec c c_lbrace) as [Elb|Elb].
+      + exfalso. apply Hno. left. exact Elb.
+      + apply IH.
+        * intro Hin. apply Hno. right. exact Hin.
+        * intros k Hk. specialize (Hpos (S k)). cbn [length firstn] in Hpos.
+          rewrite bal_cons in Hpos. apply Hpos. lia.
+        * exact Hone.
+  Qed.
+End Scan.
+
+Theorem decide_impl_small_iff u open close rest :
+  close <> open ->
+  (fst (decide_impl u open close rest) = true <->
+   exists pre post,
+     (length pre < small_scope_max_tokens)%nat /\ small_split open close 1 rest pre post).
+Proof.
+  intro Hoc. unfold decide_impl. cbn [fst]. split.
+  - intro H. apply scope_scan_sound in H as (pre & post & Hsplit & Hno & Hpos & Hone); [|lia].
+    exists pre, (post ++ skipn small_scope_max_tokens rest).
+    split.
+    + pose proof (firstn_le_length small_scope_max_tokens rest) as Hle.
+      rewrite Hsplit, app_length in Hle. cbn [length] in Hle. lia.
+    + split; [|auto].
+      rewrite <- (firstn_skipn small_scope_max_tokens rest) at 1.
+      rewrite Hsplit, <- app_assoc. reflexivity.
+  - intros (pre & post & Hlen & -> & Hno & Hpos & Hone).
+    rewrite firstn_app.
+    rewrite firstn_all2 by lia.
+    destruct (small_scope_max_tokens - length pre)%nat as [|m] eqn:Em; [lia|].
+    cbn [firstn]. apply scope_scan_complete; assumption.
+Qed.
+
+(** the two call sites *)
+Corollary decide_impl_paren_small u rest :
+  fst (decide_impl u c_lparen c_rparen rest) = true ->
+  exists pre post, rest = pre ++ c_rparen :: post /\
+                   (length pre < small_scope_max_tokens)%nat /\ ~ In c_lbrace pre.
+Proof.
+  intro H. apply decide_impl_small_iff in H as (pre & post & Hlen & Hs & Hno & _); [|discriminate].
+  eauto.
+Qed.
+
+Corollary decide_impl_angle_small u rest :
+  fst (decide_impl u c_langle c_rangle rest) = true ->
+  exists pre post, rest = pre ++ c_rangle :: post /\
+                   (length pre < small_scope_max_tokens)%nat /\ ~ In c_lbrace pre.
+Proof.
+  intro H. apply decide_impl_small_iff in H as (pre & post & Hlen & Hs & Hno & _); [|discriminate].
+  eauto.
+Qed.
+
+(** * the reader's "broken" flags are the oracle's "big" answers *)
+Section Broken.
+  Variable O : Type.
+  Variable decide : O -> N -> N -> list N -> bool * O.
+
+  Lemma read_broken_skip c l :
+    (c =? c_lparen) = false -> (c =? c_langle) = false ->
+    read_broken (c :: l) = read_broken l.
+  Proof. intros H1 H2. cbn [read_broken]. rewrite H1, H2. reflexivity. Qed.
+
+  Lemma read_broken_open c l :
+    ((c =? c_lparen) || (c =? c_langle)) = true ->
+    read_broken (c :: l) = starts_nl l :: read_broken l.
+  Proof. intro H. cbn [read_broken]. rewrite H. reflexivity. Qed.
+
+  Lemma read_broken_nl_indent i l : read_broken (nl_indent i ++ l) = read_broken l.
+  Proof.
+    unfold nl_indent, indentation. cbn [app].
+    rewrite read_broken_skip by reflexivity.
+    induction (4 * Z.to_nat i)%nat as [|n IH]; cbn [repeat app]; [reflexivity|].
+    rewrite read_broken_skip by reflexivity. exact IH.
+  Qed.
+
+  Lemma big_decisions_skip o ch rest :
+    (ch =? c_lparen) = false -> (ch =? c_langle) = false ->
+    big_decisions O decide o (ch :: rest) = big_decisions O decide o rest.
+  Proof. intros H1 H2. cbn [big_decisions]. rewrite H1, H2. reflexivity. Qed.
+
+  Lemma big_decisions_lparen o rest :
+    big_decisions O decide o (c_lparen :: rest) =
+    let '(small, o') := decide o c_lparen c_rparen rest in
+    negb small :: big_decisions O decide o' rest.
+  Proof. reflexivity. Qed.
+
+  Lemma big_decisions_langle o rest :
+    big_decisions O decide o (c_langle :: rest) =
+    let '(small, o') := decide o c_langle c_rangle rest in
+    negb small :: big_decisions O decide o' rest.
+  Proof. reflexivity. Qed.
+
+  Lemma broken_main : forall s st o rs,
+    Rel st rs -> nested_from (map fst rs) s = true -> ws_free s = true ->
+    read_broken (format_from O decide st o s) = big_decisions O decide o s.
+  Proof.
+    induction s as [|ch rest IH]; intros st o rs Hrel Hn Hw; [reflexivity|].
+    apply ws_free_cons in Hw as (Hsp & Hnl & Hw).
+    rewrite format_from_cons.
+    destruct (classify ch) as [->|[->|[->|[->|[->|[->|[->|Hoth]]]]]]].
+    - rewrite step_lbrace. cbv beta iota. cbn [app].
+      rewrite !read_broken_skip, read_broken_nl_indent, big_decisions_skip by reflexivity.
+      rewrite (nested_open _ KBrace) in Hn by reflexivity.
+      apply IH with ((KBrace, true) :: rs); auto. apply rel_brace. exact Hrel.
+    - apply nested_close with (k := KBrace) in Hn as (bs0 & Hbs & Hn); [|reflexivity..].
+      apply map_fst_cons in Hbs as (b & rs0 & -> & <-).
+      apply rel_inv_brace in Hrel as (-> & Hrel).
+      rewrite step_rbrace. cbv beta iota. rewrite <- app_assoc. cbn [app].
+      rewrite read_broken_nl_indent, read_broken_skip, big_decisions_skip by reflexivity.
+      apply IH with rs0; auto.
+    - rewrite nested_other in Hn by reflexivity.
+      rewrite step_comma, big_decisions_skip by reflexivity.
+      destruct (tuples st) as [|[] ?] eqn:Et; cbv beta iota; cbn [app];
+        rewrite ?read_broken_nl_indent, !read_broken_skip, ?read_broken_nl_indent by reflexivity;
+        apply IH with rs; auto.
+    - rewrite (nested_open _ KParen) in Hn by reflexivity.
+      rewrite step_lparen, big_decisions_lparen.
+      destruct (decide o c_lparen c_rparen rest) as [[|] o']; cbv beta iota; cbn [app negb];
+        rewrite read_broken_open by reflexivity.
+      + assert (Hrel' : Rel (mk_fstate (indent st) (Small :: tuples st) (angles st))
+                            ((KParen, false) :: rs)) by (apply rel_paren_small; exact Hrel).
+        rewrite (head_starts_nl KParen rs) by (apply fmt_head; auto).
+        f_equal. apply IH with ((KParen, false) :: rs); auto.
+      + assert (Hrel' : Rel (mk_fstate (indent st + 1) (Big :: tuples st) (angles st))
+                            ((KParen, true) :: rs)) by (apply rel_paren_big; exact Hrel).
+        rewrite read_broken_nl_indent.
+        f_equal. apply IH with ((KParen, true) :: rs); auto.
+    - apply nested_close with (k := KParen) in Hn as (bs0 & Hbs & Hn); [|reflexivity..].
+      apply map_fst_cons in Hbs as (b & rs0 & -> & <-).
+      rewrite step_rparen, big_decisions_skip by reflexivity.
+      apply rel_inv_paren in Hrel as [(-> & t0 & Et & Hrel)|(-> & t0 & Et & Hrel)];
+        rewrite Et; cbv beta iota; rewrite <- ?app_assoc; cbn [app];
+        rewrite ?read_broken_nl_indent, read_broken_skip by reflexivity;
+        apply IH with rs0; auto.
+    - rewrite (nested_open _ KAngle) in Hn by reflexivity.
+      rewrite step_langle, big_decisions_langle.
+      destruct (decide o c_langle c_rangle rest) as [[|] o']; cbv beta iota; cbn [app negb];
+        rewrite read_broken_open by reflexivity.
+      + assert (Hrel' : Rel (mk_fstate (indent st) (tuples st) (Small :: angles st))
+                            ((KAngle, false) :: rs)) by (apply rel_angle_small; exact Hrel).
+        rewrite (head_starts_nl KAngle rs) by (apply fmt_head; auto).
+        f_equal. apply IH with ((KAngle, false) :: rs); auto.
+      + assert (Hrel' : Rel (mk_fstate (indent st + 1) (tuples st) (Big :: angles st))
+                            ((KAngle, true) :: rs)) by (apply rel_angle_big; exact Hrel).
+        rewrite read_broken_nl_indent.
+        f_equal. apply IH with ((KAngle, true) :: rs); auto.
+    - apply nested_close with (k := KAngle) in Hn as (bs0 & Hbs & Hn); [|reflexivity..].
+      apply map_fst_cons in Hbs as (b & rs0 & -> & <-).
+      rewrite step_rangle, big_decisions_skip by reflexivity.
+      apply rel_inv_angle in Hrel as [(-> & a0 & Ea & Hrel)|(-> & a0 & Ea & Hrel)];
+        rewrite Ea; cbv beta iota; rewrite <- ?app_assoc; cbn [app];
+        rewrite ?read_broken_nl_indent, read_broken_skip by reflexivity;
+        apply IH with rs0; auto.
+    - rewrite (step_other _ _ _ _ _ _ Hoth). cbv beta iota. cbn [app].
+      rewrite nested_other in Hn by auto using other_opener, other_closer.
+      destruct Hoth as (H1 & H2 & H3 & H4 & H5 & H6 & H7).
+      rewrite read_broken_skip, big_decisions_skip by assumption.
+      apply IH with rs; auto.
+  Qed.
+
+  Theorem broken_iff_big o input :
+    nestedb input = true -> ws_free input = true ->
+    read_broken (format_with O decide o input) = big_decisions O decide o input.
+  Proof.
+    intros Hn Hw. unfold format_with. apply broken_main with []; auto. apply rel_nil.
+  Qed.
+End Broken.
